@@ -109,8 +109,12 @@ class NonDominatedPriority(MOPriority):
         self.max_num_samples = max_num_samples
 
     def priority_unsafe(self, objectives: np.array) -> np.array:
-        return np.array(
-            nondominated_sort(
-                X=objectives, dim=self.dim, max_items=self.max_num_samples
-            )
+        order = nondominated_sort(
+            X=objectives, dim=self.dim, max_items=self.max_num_samples
         )
+        # ``order[k]`` is the index of the item ranked k-th. Priorities are
+        # per item (lower is better), so we need the ranks, i.e. the inverse
+        # permutation. Items cut off by ``max_num_samples`` are ranked last
+        priorities = np.full(objectives.shape[0], len(order))
+        priorities[order] = np.arange(len(order))
+        return priorities
